@@ -48,9 +48,9 @@ static void make_ready(int kind, int fd_user) {
     switch (kind) {
     case M_SRC_TYPE_FD: vf_fds[fd_user].ready = true; break;
     case M_SRC_TYPE_TMR: vf_fire_timers(); break;
-    case M_SRC_TYPE_SGN: { int f = vf_find_kind(VF_SIGNAL, 0); VF_ASSUME(f >= 0); vf_fds[f].ready = true; break; }
-    case M_SRC_TYPE_PATH: { int f = vf_find_kind(VF_INOTIFY, 0); VF_ASSUME(f >= 0); vf_fds[f].ready = true; break; }
-    case M_SRC_TYPE_PID: { int f = vf_find_kind(VF_PIDFD, 0); VF_ASSUME(f >= 0); vf_fds[f].ready = true; break; }
+    case M_SRC_TYPE_SGN: { int f = vf_find_kind(VF_SIGNAL, 0); if (f >= 0) vf_fds[f].ready = true; break; }   /* no descriptor while the owner is paused */
+    case M_SRC_TYPE_PATH: { int f = vf_find_kind(VF_INOTIFY, 0); if (f >= 0) vf_fds[f].ready = true; break; }
+    case M_SRC_TYPE_PID: { int f = vf_find_kind(VF_PIDFD, 0); if (f >= 0) vf_fds[f].ready = true; break; }
     case M_SRC_TYPE_TASK: vf_run_tasks(); break;
     default: break;
     }
